@@ -38,10 +38,10 @@ prop("C04", design_ref="DESIGN.md 5 (C04), Corrections",
      level_text="Every stage has a model and unbounded theorems: sample codec and pixel (de)interleaving, RCT, 5/3 DWT (all sizes/levels/parities/origins), band partition = DWT split, code-block partition, subband extraction/assembly, MQ coder round trip, T1 symbol-level lockstep, and the whole tier-2 packet layer (bit I/O with stuffing incl. the header-ending-in-0xFF case, tag trees for any grid and any query interleaving, pass-count / comma / Lblock codes, packet headers over any layer schedule incl. empty bands, all five progression orders, per-block data gathering: EncodePackets then DecodePackets delivers every block's bytes and pass count). Partial: the stages are not composed into ONE end-to-end theorem (T1 byte-level composition and the agreement of the encoder's precinct/code-block indexing with the decoder's are stated hypotheses of the T2 theorem), and rate control is outside the model; the round trip over the property's configuration space is therefore also decided by the implementation-side oracle (700 / 12000 configurations per run incl. many-packet and many-layer classes plus a corpus of earlier failures).",
      level_note=COMMON_NOTE + " Hook-based correspondence (build tag verif) for geometry functions.")
 prop("C05", design_ref="DESIGN.md 5 (C05), Corrections",
-     level_text="Proved: for any block with non-decreasing pass rates and any monotone allocation the layers concatenate to the complete code-block data and the last layer holds all passes (both finalisers); for ANY allocation the last layer is complete; every parameter object in the property's domain maps (Validate + configureLosslessEncodeParams + initRDLayerConfig) to lossless with either one untruncated layer or >= 2 layers with the lossless layer forced. Monotonicity of the real allocators and rates_ok are checked at run time through hooks. End to end decided by the codec round-trip oracle over every rate-control path.",
+     level_text="Proved: for any block with non-decreasing pass rates and any monotone allocation the layers concatenate to the complete code-block data and the last layer holds all passes (both finalisers); for ANY allocation the last layer is complete; every parameter object in the property's domain maps (Validate + configureLosslessEncodeParams + initRDLayerConfig) to lossless with either one untruncated layer or >= 2 layers with the lossless layer forced; the tier-2 packet layer delivers every block's layer contributions for any layer schedule and progression order (C04_t2). Monotonicity of the real allocators and rates_ok are checked at run time through hooks. End to end decided by the codec round-trip oracle over every rate-control path incl. layer counts to 5000 and non-descending ladders.",
      level_note=COMMON_NOTE + " Rate-distortion optimiser is an arbitrary allocation in the theorem.")
 prop("C06", design_ref="DESIGN.md 5 (C06), Corrections",
-     level_text="Partial: MEL round trip (both coder pairs, any event list), UVLC and VLC exhaustive over regenerated tables, Scup, level clamp, Kmax sufficiency and encoder/packet/decoder consistency for every precision/level/band are proved. The HT cleanup block coder (the whole HT block coder: the lossless path emits cleanup passes only) now has a byte-exact Gallina model (encoder and decoder, three bit streams with their stuffing rules, quad contexts, exponent predictor, UVLC pair rule, segment assembly) tied to the Go coder on every run; its round-trip theorem is in progress (see Props/C06_block.v when present), so the round trip and the 14 third-party fixtures are still decided by the implementation-side oracle.",
+     level_text="The HT block coder (the lossless path emits cleanup passes only) has a byte-exact Gallina model of encoder and decoder (three bit streams with their stuffing rules, quad contexts, exponent predictor, UVLC pair rule, MEL/VLC fusion, Scup) and the round trip is proved: for every block size inside a code-block validateParams admits, every Kmax 1..30 and every coefficient array within the bit budget, decode(encode(block)) = block (C06_ht_cleanup_roundtrip_validated; the Scup representability bound is proved from the model); segments are well formed (no marker code, Scup consistent, last byte not 0xFF); every stream-dependent table index stays in range. Also proved: MEL round trip, UVLC/VLC exhaustive over regenerated tables, level clamp, Kmax sufficiency and encoder/packet/decoder consistency for every precision/level/band. Partial: the frame-level chain block -> T2 -> DWT/RCT is not composed into one theorem (each stage has its own: C04_t2, C20), so whole-frame round trips and the 14 third-party fixtures are decided by the implementation-side oracle.",
      level_note=COMMON_NOTE)
 prop("C07", design_ref="DESIGN.md 5 (C07), Corrections",
      level_text="Complete at byte level: for every precision, every NEAR in range and every image, decode(encode) is within NEAR, in range, reports NEAR and geometry; NEAR = 0 exact; encoder and decoder reconstructions coincide; byte-exact model of jpegls/nearlossless.",
@@ -60,7 +60,7 @@ prop("C11", design_ref="DESIGN.md 5 (C11), Corrections",
      level_note=COMMON_NOTE + " Theorems over R use the standard library's axioms ClassicalDedekindReals.sig_not_dec, sig_forall_dec and FunctionalExtensionality.functional_extensionality_dep (listed in print_assumptions).",
      trusted=["Coq standard library Reals axioms: ClassicalDedekindReals.sig_not_dec, ClassicalDedekindReals.sig_forall_dec, FunctionalExtensionality.functional_extensionality_dep (only the four C11 theorems over R)"])
 prop("C12", design_ref="DESIGN.md 5 (C12), Corrections",
-     level_text="Proved: QCD step field round trip (all 32x2048 field pairs) and one-ulp accuracy, dead-zone error <= D for the mathematical and the as-coded quantiser, linear bound, clamp. Partial: the float 9/7 analysis/synthesis pair and ICT enter as named hypotheses; the declared-step bound is evaluated per sample by the oracle through an independent float64 inverse 9/7 with exact absolute response sums.",
+     level_text="Proved: QCD step field round trip (all 32x2048 field pairs) and one-ulp accuracy, dead-zone error <= D for the mathematical and the as-coded quantiser, linear bound, clamp. Partial: the float 9/7 analysis/synthesis pair and ICT enter as named hypotheses; the declared-step bound is evaluated per sample by the oracle through an independent float64 inverse 9/7 with exact absolute response sums. One known finding (F51: 32-bit quantiser range at 16 bits and high quality).",
      level_note=COMMON_NOTE)
 prop("C13", design_ref="DESIGN.md 5 (C13), Corrections",
      level_text="Proved: the code's prediction is the T.81 H.1.2.1 rule; Annex C codes = BuildHuffmanCodes; model encoder and an independent T.81 encoder emit identical bytes for predictors 1-7; the independent T.81 decoder returns the exact source from the library encoders' streams; the library decoders recover the source from T.81-encoder streams for any predictor and any valid covering table in the single-table configuration. Arbitrary Td assignment / DHT placement / extra segments are stated and exercised by the cross-decoding runs only.",
@@ -84,7 +84,7 @@ prop("C19", design_ref="DESIGN.md 5 (C19), Corrections",
      level_text="Proved for all sizes: encoder, TileLayout and tile-decoder rectangles coincide, tiles are non-empty, disjoint and cover the image, extraction + assembly is the identity, origin-aware band geometry = DWT split, 5/3 inverse for every origin. End to end (T2 with tiles, global PCRD) decided by the tiled round-trip oracle incl. a corpus of the five earlier failure classes.",
      level_note=COMMON_NOTE)
 prop("C20", design_ref="DESIGN.md 5 (C20), Corrections",
-     level_text="Complete for RCT (all integers; int32 within +-2^28), 5/3 DWT (1-D every length and parity, 2-D, multilevel any origin), MQ (unbounded round trip for any decision sequence and initial contexts, encoder invariant, decoder bounds) and T1 at symbol level (unbounded lockstep for every block size, orientation, style word and pass count; LUTs = Annex D over all entries). The byte-level composition T1 = lockstep + MQ/raw transport under every termination mode is a stated Definition decided on bounded domains by computation and by the byte-exact correspondence.",
+     level_text="Complete for RCT (all integers; int32 within +-2^28), 5/3 DWT (1-D every length and parity, 2-D, multilevel any origin), MQ (unbounded round trip for any decision sequence and initial contexts, encoder invariant, decoder bounds, ErtermEnc and raw-segment round trips) and T1: symbol-level lockstep for every block size, orientation, style word and pass count (LUTs = Annex D over all entries) AND the byte-level round trip t1_decode(t1_encode(block)) = block for every block and every code-block style without LAZY/PTERM (16 styles; PTERM without LAZY/TERMALL when fb >= 1) — the codec uses style 0. LAZY (bypass) and the remaining PTERM combinations are stated and decided on bounded domains by computation and by the byte-exact correspondence.",
      level_note=COMMON_NOTE + " int32 wrap written explicitly in the RCT model; DWT over Z with a growth lemma.",
      trusted=["Go int32 arithmetic is modelled with explicit wrapS 32 in the RCT model; DWT/MQ/T1 models over Z with stated range hypotheses"],
      assumptions=["model = code shown only on the generated cases (byte/integer-exact comparison)"])
